@@ -73,7 +73,11 @@ def cases(draw):
             cmds.append(['blank-inside', draw(st.integers(0, 3))])      # incl. several complete statements in one command
         else:
             cmds.append(['big-nl', draw(st.sampled_from([0, 5, 1999, 2000, 2001, 70000]))])
-    return {'repl': repl, 'mode': draw(st.sampled_from(['sync', 'sync', 'async'])), 'cmds': cmds}
+    mode = draw(st.sampled_from(['sync', 'sync', 'async']))
+    if repl == 'bash' and mode == 'sync' and draw(st.integers(0, 2)) == 0:
+        # a command line longer than a terminal in canonical mode would accept (4095 bytes)
+        cmds.insert(draw(st.integers(0, len(cmds))), ['long-line', draw(st.sampled_from([4200, 6000]))])
+    return {'repl': repl, 'mode': mode, 'cmds': cmds}
 
 
 def render(repl, c):
@@ -86,6 +90,8 @@ def render(repl, c):
             return "echo '%s'" % c[1], c[1] + '\n'
         if kind == 'silent':
             return 'true', ''
+        if kind == 'long-line':
+            return 'echo ' + 'a' * c[1], 'a' * c[1] + '\n'
         if kind == 'big':
             return "head -c %d /dev/zero | tr '\\0' x" % c[1], 'x' * c[1]
         if kind == 'big-nl':
